@@ -21,6 +21,14 @@
 //	swap n li       connection manager shouldSwapPrimary/swapPrimary on local index li
 //	cmcheck n li in out   connection manager doTrafficCheck for local index li with the given traffic flags
 //	block n m       config reload on node n putting node m's certificates on pki.blocklist
+//	(reset … al<n>=u:b,…  gives node n lighthouse.remote_allow_list {underlay of node u: b, 0.0.0.0/0: true};
+//	         ar<n>=a/u:b,… gives it lighthouse.remote_allow_ranges {overlay addr a: {underlay of node u: b, 0.0.0.0/0: true}})
+//	relay n r p     node n: an established terminal relay object for peer overlay addr p on its primary tunnel to overlay addr r
+//	rdto k m r p    transmission k reaches node m unwrapped from the relay (r, p) of node m: processed with a relayed ViaSender
+//	rdl j m r p     the same, counting back from the latest transmission
+//
+// Transmissions through a relay (SendVia) are written h<pid>v<r>>u / m<len>v<r>>u / cv<r>>u (r = relay host overlay addr,
+// u = node the relay message is written to); every tunnel line of section I ends with the tunnel's relayState.relays.
 package hsmanager
 
 import (
@@ -113,6 +121,8 @@ type world struct {
 	fps     [][]string   // per node: fingerprints of its certificates
 	blocked [][]string   // per node: fingerprints on its blocklist
 	log0    *slog.Logger
+	relayIdx  uint32                  // next relay index handed out by the `relay` op
+	relayAddr []map[uint32]netip.Addr // per node: relay remote index -> overlay addr of the relay host
 }
 
 func underlay(n int) netip.AddrPort {
@@ -194,6 +204,37 @@ func (w *world) record(node int, b []byte, dst netip.AddrPort) {
 		return
 	}
 	d := fmt.Sprint(nodeOf(dst))
+	if ri, inner, ok := nebula.VerifHsmRelayPayload(b); ok {
+		// SendVia: the carried packet is in the clear
+		it, _, _, _, ok2 := nebula.VerifHsmHeaderKind(inner)
+		if !ok2 {
+			return
+		}
+		rn := "?"
+		if node < len(w.relayAddr) {
+			if a, ok3 := w.relayAddr[node][ri]; ok3 {
+				rn = addrName(a)
+			}
+		}
+		switch it {
+		case header.Handshake:
+			pid, seen := w.full[string(inner)]
+			if !seen {
+				pid = w.nextPid
+				w.nextPid++
+				w.full[string(inner)] = pid
+				w.body[string(inner[header.Len:])] = pid
+			}
+			cp := append([]byte(nil), inner...)
+			w.log = append(w.log, txRec{pid: pid, src: node, dst: dst, b: cp})
+			w.tx = append(w.tx, fmt.Sprintf("h%dv%s>%s", pid, rn, d))
+		case header.Message:
+			w.tx = append(w.tx, fmt.Sprintf("m%dv%s>%s", len(inner)-header.Len-16, rn, d))
+		case header.CloseTunnel:
+			w.tx = append(w.tx, fmt.Sprintf("cv%s>%s", rn, d))
+		}
+		return
+	}
 	switch t {
 	case header.Handshake:
 		pid, seen := w.full[string(b)]
@@ -251,7 +292,34 @@ func (w *world) timeName(t uint64) string { return fmt.Sprint(int64(t) - w.t0) }
 func (w *world) finish(n int, res string) string {
 	node := w.nodes[n]
 	synctest.Wait()
-	return res + " " + w.txString() + " " + node.Dump(w.pktName, addrName, uName, w.timeName)
+	return res + " " + w.txString() + " " + withRelays(node, node.Dump(w.pktName, addrName, uName, w.timeName))
+}
+
+// withRelays appends relayState.relays to every tunnel line of section I
+func withRelays(node *nebula.VerifHsmNode, dump string) string {
+	i := strings.Index(dump, " I[")
+	j := strings.Index(dump, "] R[")
+	if i < 0 || j < i {
+		return dump
+	}
+	body := dump[i+3 : j]
+	if body == "" {
+		return dump
+	}
+	ents := strings.Split(body, ",")
+	for k, e := range ents {
+		li := hlib.Atou(e[:strings.IndexByte(e, ':')])
+		var rs []string
+		for _, a := range node.RelaysOf(uint32(li)) {
+			rs = append(rs, addrName(a))
+		}
+		r := "-"
+		if len(rs) > 0 {
+			r = strings.Join(rs, "+")
+		}
+		ents[k] = e + ":" + r
+	}
+	return dump[:i+3] + strings.Join(ents, ",") + dump[j:]
 }
 
 type m = map[string]any
@@ -289,7 +357,45 @@ func newWorld(t *testing.T, args []string) (w *world, res string) {
 	w.log0 = l
 	var specs []string
 	routes := map[int]routing.Gateways{}
+	allowBase := map[int]m{}
+	allowRanges := map[int]m{}
 	for _, tok := range args[3:] {
+		if strings.HasPrefix(tok, "al") || strings.HasPrefix(tok, "ar") {
+			kv := strings.SplitN(tok[2:], "=", 2)
+			if len(kv) != 2 {
+				return w, "bad-op"
+			}
+			n := hlib.Atoi(kv[0])
+			for _, e := range strings.Split(kv[1], ",") {
+				ub := strings.SplitN(e, ":", 2)
+				if len(ub) != 2 {
+					return w, "bad-op"
+				}
+				if tok[1] == 'l' {
+					if allowBase[n] == nil {
+						allowBase[n] = m{"0.0.0.0/0": true}
+					}
+					allowBase[n][underlay(hlib.Atoi(ub[0])).Addr().String()+"/32"] = ub[1] == "1"
+				} else {
+					au := strings.SplitN(ub[0], "/", 2)
+					if len(au) != 2 {
+						return w, "bad-op"
+					}
+					a := overlayAddr(hlib.Atoi(au[0]))
+					key := netip.PrefixFrom(a, a.BitLen()).String()
+					if allowRanges[n] == nil {
+						allowRanges[n] = m{}
+					}
+					inner, _ := allowRanges[n][key].(m)
+					if inner == nil {
+						inner = m{"0.0.0.0/0": true}
+						allowRanges[n][key] = inner
+					}
+					inner[underlay(hlib.Atoi(au[1])).Addr().String()+"/32"] = ub[1] == "1"
+				}
+			}
+			continue
+		}
 		if strings.HasPrefix(tok, "rt") {
 			// rt<node>=<gateway addr>:<weight>,…  an unsafe route 172.16.0.0/16 of that node
 			kv := strings.SplitN(tok[2:], "=", 2)
@@ -385,10 +491,21 @@ func newWorld(t *testing.T, args []string) (w *world, res string) {
 			"handshakes": m{"try_interval": fmt.Sprintf("%dms", interval), "retries": retries},
 			"listen":     m{"host": underlay(i).Addr().String(), "port": 4242},
 		}
+		if allowBase[i] != nil || allowRanges[i] != nil {
+			lhc := m{}
+			if allowBase[i] != nil {
+				lhc["remote_allow_list"] = allowBase[i]
+			}
+			if allowRanges[i] != nil {
+				lhc["remote_allow_ranges"] = allowRanges[i]
+			}
+			mc["lighthouse"] = lhc
+		}
 		c := config.NewC(l)
 		if err := c.LoadString(yamlOf(mc)); err != nil {
 			return w, "err:config"
 		}
+		w.relayAddr = append(w.relayAddr, map[uint32]netip.Addr{})
 		w.idxQ = append(w.idxQ, nil)
 		w.idxCtr = append(w.idxCtr, 0)
 		node, err := nebula.VerifHsmNewNode(l, c, &recConn{w: w, node: i}, &routedTun{gws: routes[i]})
@@ -547,6 +664,42 @@ func newExec(t *testing.T) func([]string) string {
 				}
 			}
 			w.nodes[to].Incoming(underlay(r.src), pkt)
+			return w.finish(to, fmt.Sprintf("to%d", to))
+		case "relay":
+			n, ok := node(a[1])
+			if !ok || len(a) != 4 {
+				return "bad-op"
+			}
+			w.cur = n
+			w.relayIdx++
+			li, ri := 900000+w.relayIdx, 800000+w.relayIdx
+			r := overlayAddr(hlib.Atoi(a[2]))
+			res := "none"
+			if w.nodes[n].AddTerminalRelay(r, overlayAddr(hlib.Atoi(a[3])), li, ri) {
+				w.relayAddr[n][ri] = r
+				res = "ok"
+			}
+			return w.finish(n, res)
+		case "rdto", "rdl":
+			if len(a) != 5 {
+				return "bad-op"
+			}
+			k := hlib.Atoi(a[1])
+			if a[0] == "rdl" {
+				k = len(w.log) - 1 - k
+			}
+			if k < 0 || k >= len(w.log) {
+				return "nop"
+			}
+			to := hlib.Atoi(a[2])
+			if to < 0 || to >= len(w.nodes) {
+				return "nonode"
+			}
+			w.cur = to
+			pkt := append([]byte(nil), w.log[k].b...)
+			if !w.nodes[to].IncomingRelayed(overlayAddr(hlib.Atoi(a[3])), overlayAddr(hlib.Atoi(a[4])), pkt) {
+				return w.finish(to, "norelay")
+			}
 			return w.finish(to, fmt.Sprintf("to%d", to))
 		case "send":
 			n, ok := node(a[1])
